@@ -961,8 +961,31 @@ impl PipeEngine {
             extras_placed: vec![],
             depth_cap: ctx.with_tape(|t| *t.pick(&[2u32, 4, 8, 30])),
         };
-        let v: plain::Tree = ctx.with_tape(|t| TGen::tgen(t, &mut g, 0));
-        self.c01_value(ctx, &v, faults, "model::Tree");
+        // the root of a document is not always a struct: optionals, collections, maps and bare
+        // leaves at the top level take other paths through the serializers
+        macro_rules! root {
+            ($ty:ty, $what:expr) => {{
+                let v: $ty = ctx.with_tape(|t| TGen::tgen(t, &mut g, 0));
+                ctx.count("probe.c01_root_not_a_struct");
+                self.c01_value(ctx, &v, faults, $what);
+            }};
+        }
+        match ctx.draw(14) {
+            0 => root!(Option<D>, "root optional<double>"),
+            1 => root!(Option<ByteBuf>, "root optional<binary>"),
+            2 => root!(Option<BTreeMap<DoubleKey, Option<D>>>, "root optional<map<double,optional<double>>>"),
+            3 => root!(Option<BTreeMap<bool, ByteBuf>>, "root optional<map<boolean,binary>>"),
+            4 => root!(Vec<Option<D>>, "root list<optional<double>>"),
+            5 => root!(BTreeMap<ByteBuf, D>, "root map<binary,double>"),
+            6 => root!(D, "root double"),
+            7 => root!(ByteBuf, "root binary"),
+            8 => root!(Option<BTreeMap<String, Vec<Option<ByteBuf>>>>, "root optional<map<string,list<optional<binary>>>>"),
+            9 => root!(Option<Vec<SafeLong>>, "root optional<list<safelong>>"),
+            _ => {
+                let v: plain::Tree = ctx.with_tape(|t| TGen::tgen(t, &mut g, 0));
+                self.c01_value(ctx, &v, faults, "model::Tree");
+            }
+        }
     }
 
     fn c01_value<T>(&self, ctx: &Ctx, v: &T, faults: bool, what: &str)
@@ -1100,6 +1123,12 @@ impl PipeEngine {
                 };
                 let pdesc = plan.describe();
                 let truncated = plan.eof_at.map(|e| e < reference.len()).unwrap_or(false);
+                // (a bare number at the root: some of its prefixes are numbers too)
+                let prefix_is_a_document = truncated
+                    && plan.eof_at.map_or(false, |e| match mode {
+                        Mode::Json => crate::judge::json_one_doc(&reference[..e]).is_some(),
+                        Mode::Smile => crate::judge::smile_one_doc(&reference[..e]),
+                    });
                 let r = guarded(|| de::<T>(mode, server, src, &reference, plan));
                 let role = if server { "server" } else { "client" };
                 match r {
@@ -1131,7 +1160,9 @@ impl PipeEngine {
                                     ctx.violation("C01", format!("value_after_read_error:{:?}:{}", mode, role), format!("reader {}", pdesc));
                                 } else if truncated {
                                     // a prefix may be a complete document only for trivial values
-                                    if back != *v {
+                                    if prefix_is_a_document {
+                                        ctx.count("probe.c01_truncated_prefix_is_itself_a_document");
+                                    } else if back != *v {
                                         ctx.violation("C01", format!("value_from_truncated_input:{:?}:{}", mode, role), format!("reader {} gave {:?}", pdesc, clip(&format!("{:?}", back))));
                                     }
                                 } else if back != *v {
